@@ -202,12 +202,13 @@ func (e *JSchemaError) SourceSubString() string {
 	begin := e.lineBeginning()
 	end := e.lineEnd()
 
-	if end-begin > maxLength {
-		end = begin + maxLength - 3
-		return content.Sub(begin, end).TrimSpacesFromLeft().String() + "..."
+	// The leading blanks are not shown, so the limit applies to what follows them.
+	line := content.Sub(begin, end).TrimSpacesFromLeft()
+	if line.Len() > maxLength {
+		return line.SubHigh(maxLength-3).String() + "..."
 	}
 
-	return content.Sub(begin, end).TrimSpacesFromLeft().String()
+	return line.String()
 }
 
 func (e *JSchemaError) pointerToTheErrorCharacter() string {
